@@ -114,6 +114,9 @@ def run(program, res, tier):
     res.rule("C27-S7", "SQL: a windowed term is not merged into the SELECT that recomputes its partition / order keys")
     from . import c04
     c04._s1c(program, Relabel(res, {"*": "C27-S7"}))
+    res.rule("C27-S9", "Pandas: rows are put in the declared order — the window sort key is partition_by + order_by, nothing else")
+    from . import c10
+    c10.window_sort_key_rule(program, Relabel(res, {"*": "C27-S9"}), rule="C27-S9")
     # ------------------------------------------------------------------ Pandas
     pe = program.method("pandas_base", "PandasModelBase", "_extend_step", inherited=False)
     res.analysed(pe)
